@@ -295,6 +295,8 @@ let run_case (x : sx) : Stdlib.String.t =
                     | L l -> RPlain (plain l)
                     | _ -> failwith "bad step") steps in
                   let text = match getf "nodollar", getf "pad", ks with
+                    | _ when getf "keyf" <> [] ->
+                        chain_fun_path ks (List.map (function L l -> cp l | _ -> failwith "bad function name") (getf "keyf"))
                     | [A "1"], _, RPlain s0 :: rest -> chain_path0 s0 rest
                     | _, [A a; A b], _ -> padded_path (nat_of_int (int_of_string a)) (nat_of_int (int_of_string b)) ks
                     | _ -> chain_path ks in
